@@ -1166,6 +1166,8 @@ seq_t dtw_warping_paths_ndim(seq_t *wps,
         for (idx_t i=ri_width + wpsi; i<ri_width + p.width; i++) {
             wps[i] = INFINITY;
         }
+        // wpsi is the position after the last in-band column, also when the row was left early by pruning
+        wpsi += max_ci - ci;
         max_ci++;
         ri_widthp = ri_width;
         ri_width += p.width;
@@ -1216,6 +1218,8 @@ seq_t dtw_warping_paths_ndim(seq_t *wps,
         for (idx_t i=ri_width + wpsi; i<ri_width + p.width; i++) {
             wps[i] = INFINITY;
         }
+        // wpsi is the position after the last in-band column, also when the row was left early by pruning
+        wpsi += max_ci - ci;
         ri_widthp = ri_width;
         ri_width += p.width;
     }
@@ -1266,6 +1270,8 @@ seq_t dtw_warping_paths_ndim(seq_t *wps,
         for (idx_t i=ri_width + wpsi; i<ri_width + p.width; i++) {
             wps[i] = INFINITY;
         }
+        // wpsi is the position after the last in-band column, also when the row was left early by pruning
+        wpsi += max_ci - ci;
         min_ci++;
         max_ci++;
         ri_widthp = ri_width;
@@ -1326,6 +1332,8 @@ seq_t dtw_warping_paths_ndim(seq_t *wps,
         for (idx_t i=ri_width + wpsi; i<ri_width + p.width; i++) {
             wps[i] = INFINITY;
         }
+        // wpsi is the position after the last in-band column, also when the row was left early by pruning
+        wpsi += l2 - ci;
         // printf("%zi [", ri);
         // for (idx_t i=ri_width; i<ri_width + p.width; i++) {
         //     printf("%7.3f, ", wps[i]);
@@ -1541,6 +1549,8 @@ seq_t dtw_warping_paths_ndim_euclidean(seq_t *wps,
         for (idx_t i=ri_width + wpsi; i<ri_width + p.width; i++) {
             wps[i] = INFINITY;
         }
+        // wpsi is the position after the last in-band column, also when the row was left early by pruning
+        wpsi += max_ci - ci;
         max_ci++;
         ri_widthp = ri_width;
         ri_width += p.width;
@@ -1592,6 +1602,8 @@ seq_t dtw_warping_paths_ndim_euclidean(seq_t *wps,
         for (idx_t i=ri_width + wpsi; i<ri_width + p.width; i++) {
             wps[i] = INFINITY;
         }
+        // wpsi is the position after the last in-band column, also when the row was left early by pruning
+        wpsi += max_ci - ci;
         ri_widthp = ri_width;
         ri_width += p.width;
     }
@@ -1643,6 +1655,8 @@ seq_t dtw_warping_paths_ndim_euclidean(seq_t *wps,
         for (idx_t i=ri_width + wpsi; i<ri_width + p.width; i++) {
             wps[i] = INFINITY;
         }
+        // wpsi is the position after the last in-band column, also when the row was left early by pruning
+        wpsi += max_ci - ci;
         min_ci++;
         max_ci++;
         ri_widthp = ri_width;
@@ -1704,6 +1718,8 @@ seq_t dtw_warping_paths_ndim_euclidean(seq_t *wps,
         for (idx_t i=ri_width + wpsi; i<ri_width + p.width; i++) {
             wps[i] = INFINITY;
         }
+        // wpsi is the position after the last in-band column, also when the row was left early by pruning
+        wpsi += l2 - ci;
         // printf("%zi [", ri);
         // for (idx_t i=ri_width; i<ri_width + p.width; i++) {
         //     printf("%7.3f, ", wps[i]);
